@@ -171,6 +171,9 @@ def in_c06_domain(t: str) -> bool:
         return False        # e.g. `not  in` with several blanks: poetry-core's grammar has the literal "not in" (C19's subject)
     if any(lit[1:-1] == "" for _, _, lit in items) or any(lit[1:-1] == "" for lit, _, _ in rev):
         return False        # empty literals are not values of any variable
+    for _, op, lit in items:
+        if " ".join(op.split()) in ("in", "not in") and not re.fullmatch(r"[^ ,|]+([ ,|]+[^ ,|]+)*", lit[1:-1]):
+            return False    # a list literal is a list of tokens: no leading/trailing/doubled separators producing empty tokens
     for name, op, lit in items:
         lit = lit[1:-1]
         op = " ".join(op.split())
